@@ -59,6 +59,8 @@ def program(s, rnd):
             add("t(lambda: s.replace(%s, 'Z'))" % q, op="replace", sub=sub)
             add("t(lambda: %s.join([s, s]))" % q, op="join", sub=sub)
     add("t(lambda: s.split())", op="splitws")
+    add("t(lambda: (s.split(None, -1), s.split(None, 0), s.split(None, 1), s.split(maxsplit=-1), s.split(%s, -1), s.split(%s, 0), s.split(%s, 1), s.split(%s, -7)))" % ((lit(subs[0]),) * 4), op="split_maxsplit")
+    add("t(lambda: s.split(''))", op="split_empty_sep")
     add("t(lambda: (s.strip(), s.lstrip(), s.rstrip()))", op="strip")
     add("t(lambda: s.strip(%s))" % lit(s[:1] + "a"), op="stripchars")
     other = lit(subs[0] + s[1:])
